@@ -450,6 +450,13 @@ def prepare(pid, tier, need_variants, need_harness):
 
 
 def write_evidence(pid, tier, seed, level, cov, wall, violations, assumptions):
+    if os.path.realpath(REPO) != '/repo':
+        # sensitivity runs against a scratch tree must not overwrite the evidence of the real tree
+        d = os.path.join(RUN, 'evidence-scratch')
+        os.makedirs(d, exist_ok=True)
+        json.dump(dict(property_id=pid, tier=tier, seed=seed, level=level, coverage=cov, wall_s=round(wall, 2), violations=violations, repo=REPO),
+                  open(os.path.join(d, pid + '.json'), 'w'), indent=1)
+        return
     os.makedirs(os.path.join(VERIF, 'evidence'), exist_ok=True)
     ev = dict(property_id=pid, tier=tier, seed=seed, level=level, coverage=cov, assumptions=assumptions, wall_s=round(wall, 2), violations=violations)
     tmp = os.path.join(VERIF, 'evidence', pid + '.json.tmp')
